@@ -261,6 +261,8 @@ def structure_case(ck, d, seed):
 
     rng = random.Random(seed)
 
+    import ConfigSpace.hyperparameters as csh
+
     n = rng.choice([1, 2, 3, 4, 6])
     names = rng.sample(_NAMES, n)
     if rng.random() < 0.15 and n > 1:
@@ -269,45 +271,79 @@ def structure_case(ck, d, seed):
     raw_values = []
     problem = HpProblem()
     steps = []
-    for nm in names:
+    history = []          # the construction history: adds, conditions / forbidden clauses, reads - in this order
+    cstate = {"children": set(), "parents": set()}
+    surrogate = rng.choice(["RF", "ET", "GP", None, "GBRT", "DUMMY", "HGBRT", "MF"])
+    case = {"kind": "structure", "seed": seed, "surrogate": surrogate}
+    consistent = True
+
+    def read_and_check(after):
+        """reads of the problem between the construction steps (a search reads them at any time); whatever was read
+        before, the names must be ConfigSpace's, in ConfigSpace's order"""
+        nonlocal consistent
+        for what in rng.sample(["len", "names", "default"], rng.choice([0, 1, 1, 2, 3])):
+            history.append("read:" + what)
+            Out(lambda: len(problem) if what == "len" else problem.hyperparameter_names if what == "names" else problem.default_configuration)
+        o = Out(lambda: (list(problem.hyperparameter_names), len(problem)))
+        truth = list(problem.space.keys())
+        if consistent and (o.exc is not None or o.val[0] != truth or o.val[1] != len(truth)):
+            consistent = False
+            ck.fail("C10|convert-names-order|HpProblem.hyperparameter_names|" + after.split(":")[0],
+                    "problem.hyperparameter_names / len(problem) differ from the ConfigSpace (names or order) after " + after,
+                    {**case, "history": list(history)}, {"problem": repr(o.exc or o.val), "configspace": truth})
+
+    for k, nm in enumerate(names):
         valid = rng.random() < 0.8
         value = rename(gen_decl(rng, valid), nm)
         name_arg = nm if rng.random() < 0.95 else None
         raw_values.append(value)
-        import ConfigSpace.hyperparameters as csh
-
         plural = isinstance(value, csh.Hyperparameter) and rng.random() < 0.5
         out = Out(lambda: problem.add_hyperparameter(value, name_arg) if not isinstance(value, csh.Hyperparameter)
                   else (problem.add_hyperparameters([value]) if plural else problem.add_hyperparameter(value)))
         steps.append("ok" if out.exc is None else err_kind(out.exc))
         adds.append({"value": shorthand_wire(value), "name": name_arg, "py": describe(value)})
+        history.append("add:" + str(nm))
         ck.count("add:" + (shorthand_wire(value)["k"]) + ":" + steps[-1])
-    surrogate = rng.choice(["RF", "ET", "GP", None, "GBRT", "DUMMY", "HGBRT", "MF"])
-    case = {"kind": "structure", "seed": seed, "adds": [{"name": a["name"], "py": a["py"]} for a in adds], "surrogate": surrogate}
+        read_and_check("add_hyperparameter:" + str(nm))
+        if len(problem.space) >= 2 and k + 1 < len(names) and rng.random() < 0.3:
+            # a condition / forbidden clause BETWEEN two adds
+            nc0, nf0 = len(problem.space.conditions), len(problem.space.forbidden_clauses)
+            add_conditions(problem, rng, cstate, at_most=1)
+            if (len(problem.space.conditions), len(problem.space.forbidden_clauses)) != (nc0, nf0):
+                history.append("conditions:%d,forbidden:%d" % (len(problem.space.conditions), len(problem.space.forbidden_clauses)))
+                ck.count("structure:condition-between-adds")
+                read_and_check("add_condition")
+    case["adds"] = [{"name": a["name"], "py": a["py"]} for a in adds]
     ck.case(case, nontrivial=steps.count("ok") >= 1)
     rep = d.ask({"op": "adds", "adds": [{"value": a["value"], "name": a["name"]} for a in adds], "R": r_table(raw_values)})
-    real_names = list(problem.hyperparameter_names)
     real_hps = [cshp_wire(h) for h in problem.space.values()]
     if rep["steps"] != steps:
         ck.mismatch(case, {"what": "add_hyperparameter accepted/raised", "impl": steps, "model": rep["steps"]})
         return
-    if rep["names"] != real_names or rep["hps"] != real_hps:
+    if problem.space.conditions:
+        # ConfigSpace lists parents first: the model's alphabetical insertion only fixes the SET of hyperparameters
+        same = sorted(rep["hps"], key=lambda h: h["name"]) == sorted(real_hps, key=lambda h: h["name"])
+    else:
+        same = rep["names"] == list(problem.space.keys()) and rep["hps"] == real_hps
+    if not same:
         ck.mismatch(case, {"what": "hyperparameters after the adds (ConfigSpace order)", "impl": real_hps, "model": rep["hps"]})
         return
     if not real_hps:
         return
     # conditions / forbidden clauses between arbitrary (not alphabetically ordered) names: ConfigSpace then lists
     # parents before children; the converted space must follow problem.hyperparameter_names
-    ncond = nforb = 0
     if len(real_hps) >= 2 and rng.random() < 0.5:
-        ncond, nforb = add_conditions(problem, rng)
-        case["conditions"], case["forbidden"] = ncond, nforb
-        ck.count("structure:conditions=%d,forbidden=%d" % (ncond, nforb))
-        real_hps = [cshp_wire(h) for h in problem.space.values()]
-        if [h["name"] for h in real_hps] != list(problem.hyperparameter_names):
-            raise common.HarnessError("ConfigSpace keys() and values() disagree")
-        if [h["name"] for h in real_hps] != sorted(h["name"] for h in real_hps):
-            ck.count("structure:non-alphabetical-order")
+        add_conditions(problem, rng, cstate)
+        history.append("conditions:%d,forbidden:%d" % (len(problem.space.conditions), len(problem.space.forbidden_clauses)))
+        read_and_check("add_condition")
+    ncond, nforb = len(problem.space.conditions), len(problem.space.forbidden_clauses)
+    case["conditions"], case["forbidden"], case["history"] = ncond, nforb, history
+    ck.count("structure:conditions=%d,forbidden=%d" % (ncond, nforb))
+    real_hps = [cshp_wire(h) for h in problem.space.values()]
+    if [h["name"] for h in real_hps] != list(problem.space.keys()):
+        raise common.HarnessError("ConfigSpace keys() and values() disagree")  # ConfigSpace itself, not deephyper
+    if [h["name"] for h in real_hps] != sorted(h["name"] for h in real_hps):
+        ck.count("structure:non-alphabetical-order")
     conv = Out(lambda: convert_to_skopt_space(problem.space, surrogate_model=surrogate))
     rep2 = d.ask({"op": "convert", "hps": real_hps, "ncond": ncond, "nforb": nforb, "surrogate": surrogate or ""})
     sp = check_conversion(ck, case, problem, conv, rep2)
@@ -394,7 +430,7 @@ def check_points_by_name(ck, case, problem, rows, path):
                 return
 
 
-def add_conditions(problem, rng):
+def add_conditions(problem, rng, cstate=None, at_most=2):
     """1-2 EqualsConditions (child, parent with a finite value set, legal parent value) and possibly a forbidden clause;
     whatever ConfigSpace refuses (cycles, forbidden default, ...) is skipped"""
     import ConfigSpace as cs
@@ -411,9 +447,9 @@ def add_conditions(problem, rng):
 
     hps = list(problem.space.values())
     ncond = nforb = 0
-    children = set()
-    used_parents = set()
-    for _ in range(rng.choice([1, 1, 2])):
+    cstate = cstate if cstate is not None else {"children": set(), "parents": set()}
+    children, used_parents = cstate["children"], cstate["parents"]
+    for _ in range(min(at_most, rng.choice([1, 1, 2]))):
         # no chains / cycles: a parent is never a child and a child never a parent (ConfigSpace does not roll a
         # rejected cyclic condition back, which would leave the problem corrupted)
         parents = [h for h in hps if len(values_of(h)) >= 2 and h.name not in children]
@@ -462,7 +498,12 @@ def check_conversion(ck, case, problem, conv, rep):
     from deephyper.skopt.space import Categorical, Integer, Real
 
     hps = list(problem.space.values())
-    if sp.dimension_names != list(problem.hyperparameter_names) or len(sp.dimensions) != len(hps):
+    truth = list(problem.space.keys())
+    if list(problem.hyperparameter_names) != truth:
+        ck.fail("C10|convert-names-order|HpProblem.hyperparameter_names|convert", "problem.hyperparameter_names differ from the ConfigSpace (names or order)",
+                case, {"problem": list(problem.hyperparameter_names), "configspace": truth})
+        return sp
+    if sp.dimension_names != truth or len(sp.dimensions) != len(hps):
         ck.fail("C10|convert-names-order|convert_to_skopt_space|names", "names / order of the converted space differ from the problem's",
                 case, {"space": sp.dimension_names, "problem": list(problem.hyperparameter_names)})
         return sp
